@@ -437,6 +437,63 @@ pub enum PatRes { None, Cap(Vec<Option<String>>), Split(Vec<String>) }
 pub struct LineOracle {
     pub res: Vec<PatRes>,
     pub json: Option<serde_json::Value>,
+    /// for the number nodes of `json` in document order: `f64::from_str` of the number's own text (its lexeme in the
+    /// line) — what a REAL column must hold, decided without serde_json's float reader. `None` when the lexemes cannot be
+    /// matched to the nodes (a repeated key dropped or moved a number).
+    pub lexeme_reals: Option<Vec<f64>>,
+}
+
+fn number_nodes<'a>(j: &'a serde_json::Value, out: &mut Vec<&'a serde_json::Value>) {
+    match j {
+        serde_json::Value::Number(_) => out.push(j),
+        serde_json::Value::Array(xs) => for x in xs { number_nodes(x, out); },
+        serde_json::Value::Object(m) => for (_, x) in m { number_nodes(x, out); },
+        _ => {}
+    }
+}
+
+/// two values of the same shape whose REALs differ by a few units in the last place (and nothing else differs)
+fn off_by_ulps(a: &Value, b: &Value) -> bool {
+    match (a, b) {
+        (Value::Float(Float(x)), Value::Float(Float(y))) => ulps_apart(*x, *y) <= 4,
+        (Value::Array(_, xs), Value::Array(_, ys)) => xs.len() == ys.len() && xs.iter().zip(ys).all(|(x, y)| same(x, y) || off_by_ulps(x, y)),
+        _ => false,
+    }
+}
+
+fn ulps_apart(a: f64, b: f64) -> u64 {
+    if a == b { return 0; }
+    if a.is_sign_negative() != b.is_sign_negative() { return u64::MAX; }
+    let (x, y) = (a.to_bits() & 0x7fff_ffff_ffff_ffff, b.to_bits() & 0x7fff_ffff_ffff_ffff);
+    if x > y { x - y } else { y - x }
+}
+
+/// the lexemes of the line's numbers, matched to the number nodes of the parsed document by position; a match is
+/// accepted only if every pair denotes (nearly) the same number — a repeated key can reorder or drop nodes
+fn lexeme_reals(line: &str, json: &serde_json::Value) -> Option<Vec<f64>> {
+    let toks = crate::c17::number_tokens(line);
+    let mut nodes = Vec::new();
+    number_nodes(json, &mut nodes);
+    if toks.len() != nodes.len() { return None; }
+    let mut out = Vec::new();
+    for (t, n) in toks.iter().zip(&nodes) {
+        let f = f64::from_str(t).ok()?;
+        let g = match n { serde_json::Value::Number(n) => n.as_f64()?, _ => return None };
+        if ulps_apart(f, g) > 4 { return None; }
+        out.push(f);
+    }
+    Some(out)
+}
+
+impl LineOracle {
+    /// `f64::from_str` of the lexeme of a number node of `self.json` (found by identity)
+    pub fn real_of(&self, node: &serde_json::Value) -> Option<f64> {
+        let reals = self.lexeme_reals.as_ref()?;
+        let mut nodes = Vec::new();
+        number_nodes(self.json.as_ref()?, &mut nodes);
+        let i = nodes.iter().position(|n| std::ptr::eq(*n, node))?;
+        reals.get(i).copied()
+    }
 }
 
 pub fn line_oracle(td: &TableDefinition, line: &str) -> LineOracle {
@@ -453,7 +510,8 @@ pub fn line_oracle(td: &TableDefinition, line: &str) -> LineOracle {
         }
     }
     let json = serde_json::from_str::<serde_json::Value>(line).ok();
-    LineOracle { res, json }
+    let lexeme_reals = json.as_ref().and_then(|j| lexeme_reals(line, j));
+    LineOracle { res, json, lexeme_reals }
 }
 
 pub fn json_sexp(v: &serde_json::Value, out: &mut String) {
@@ -641,16 +699,18 @@ fn json_follow<'a>(steps: &[GStep], j: &'a serde_json::Value) -> Option<&'a serd
     Some(cur)
 }
 
-fn no_coercion(t: &ValueType, j: &serde_json::Value) -> Value {
+/// a REAL fed from a JSON number is `f64::from_str` of the number's text where the text can be got at (`real_of`),
+/// serde_json's own reading otherwise
+fn no_coercion(t: &ValueType, j: &serde_json::Value, real_of: &dyn Fn(&serde_json::Value) -> Option<f64>) -> Value {
     match (t, j) {
         (ValueType::Int, serde_json::Value::Number(n)) => {
             if let Some(u) = n.as_u64() { if u <= i64::MAX as u64 { Value::Int(u as i64) } else { Value::Null } }
             else if n.is_i64() { Value::Int(n.as_i64().unwrap()) } else { Value::Null }
         }
-        (ValueType::Float, serde_json::Value::Number(n)) => Value::Float(Float(n.as_f64().unwrap())),
+        (ValueType::Float, serde_json::Value::Number(n)) => Value::Float(Float(real_of(j).unwrap_or_else(|| n.as_f64().unwrap()))),
         (ValueType::Bool, serde_json::Value::Bool(b)) => Value::Bool(*b),
         (ValueType::String, serde_json::Value::String(s)) => Value::String(s.clone()),
-        (ValueType::Array(e), serde_json::Value::Array(xs)) => Value::Array(*e.clone(), xs.iter().map(|x| no_coercion(e, x)).collect()),
+        (ValueType::Array(e), serde_json::Value::Array(xs)) => Value::Array(*e.clone(), xs.iter().map(|x| no_coercion(e, x, real_of)).collect()),
         _ => Value::Null,
     }
 }
@@ -709,15 +769,16 @@ pub fn spec_column(td: &TableDefinition, c: &ColumnDefinition, lo: &LineOracle, 
         },
         ColumnParsing::Json(a) => {
             let steps = json_steps(a);
-            let root = lo.json.clone().unwrap_or(serde_json::Value::Null);
-            match json_follow(&steps, &root) {
+            let null = serde_json::Value::Null;
+            let root: &serde_json::Value = lo.json.as_ref().unwrap_or(&null);      // by reference: `real_of` finds nodes by identity
+            match json_follow(&steps, root) {
                 None => either(dflt.clone(), if lo.json.is_some() { "json-path-absent" } else { "not-json" }),
                 Some(v) => {
                     if c.options.convert {
                         match v { serde_json::Value::String(s) => Spec { main: literal(&c.column_type, s), alt: None, why: "json-convert".to_owned() }, _ => Spec { main: Value::Null, alt: None, why: "json-convert-nonstring".to_owned() } }
                     } else {
-                        let m = no_coercion(&c.column_type, v);
-                        let why = if m.is_null() { "json-other-type" } else { "json-value" };
+                        let m = no_coercion(&c.column_type, v, &|n| lo.real_of(n));
+                        let why = if m.is_null() { "json-other-type" } else if *base_type(&c.column_type) == ValueType::Float && lo.lexeme_reals.is_some() { "json-real-lexeme" } else { "json-value" };
                         Spec { main: m, alt: None, why: why.to_owned() }
                     }
                 }
@@ -820,6 +881,7 @@ pub fn run_case(run: &mut Run, td: &TableDefinition, def_text: &str, line: &str,
         let ok = same(&row[i], &s.main) || s.alt.as_ref().map(|a| same(&row[i], a)).unwrap_or(false);
         if !ok {
             let class = if s.why == "ts-part1-absent" && matches!(row[i], Value::Timestamp(_)) { format!("D52:ts-month-absent-becomes-january:{}", col_mod(c)) }
+                else if s.why == "json-real-lexeme" && off_by_ulps(&row[i], &s.main) { format!("D66:json-real-not-f64-from-str-of-its-text:{}", type_name(&c.column_type)) }
                 else { format!("{}:{}:{}:{}", col_kind(c), type_name(&c.column_type), col_mod(c), s.why) };
             run.fail(desc(), &class, format!("column {}: got {}, the property demands {}{}", i, value_sexp(&row[i]), value_sexp(&s.main), s.alt.as_ref().map(|a| format!(" (or {})", value_sexp(a))).unwrap_or_default()));
         }
@@ -955,7 +1017,7 @@ impl GJ {
 }
 
 const JNUM_INT: &[&str] = &["5", "-7", "0", "-0", "9223372036854775807", "9223372036854775808", "-9223372036854775808", "-9223372036854775809", "18446744073709551615", "18446744073709551616", "4294967297", "1.0", "1e2", "12"];
-const JNUM_REAL: &[&str] = &["1.5", "5", "-0.0", "1e308", "1E-400", "18446744073709551616", "9007199254740993", "-9223372036854775808", "0.1", "123456789012345678901234567890", "2.5e-3", "1e400"];
+const JNUM_REAL: &[&str] = &["239.21e-27", "2.2250738585072011e-308", "46348.619e-20", "97045.26e25", "-78260.519e-26", "7.038531e-26", "1.5", "5", "-0.0", "1e308", "1E-400", "18446744073709551616", "9007199254740993", "-9223372036854775808", "0.1", "123456789012345678901234567890", "2.5e-3", "1e400"];
 
 fn scalar_of_wrong_type(rng: &mut Rng) -> GJ {
     match rng.below(8) {
@@ -976,7 +1038,12 @@ fn leaf_for(rng: &mut Rng, c: &ColumnDefinition) -> GJ {
 fn leaf_of_type(rng: &mut Rng, t: &ValueType, depth: usize) -> GJ {
     match t {
         ValueType::Int => GJ::Raw((*rng.pick(JNUM_INT)).into()),
-        ValueType::Float => GJ::Raw((*rng.pick(JNUM_REAL)).into()),
+        ValueType::Float => if rng.chance(1, 3) {
+            // a literal whose nearest REAL needs more than "significand × one power of ten" (finding D66)
+            let m = rng.below(100000000);
+            let e = if rng.chance(1, 2) { 23 + rng.below(280) as i64 } else { -(23 + rng.below(300) as i64) };
+            GJ::Raw(format!("{}{}.{}{}{}", if rng.chance(1, 4) { "-" } else { "" }, m / 1000, m % 1000, if rng.chance(1, 2) { "e" } else { "E" }, e))
+        } else { GJ::Raw((*rng.pick(JNUM_REAL)).into()) },
         ValueType::Bool => GJ::Raw((*rng.pick(&["true", "false"])).into()),
         ValueType::String => GJ::Str((*rng.pick(&["abc", "", " pad ", "é", "a\"b\\c", "line\nbreak", "\u{1f600}", "日本", "\u{0}", "A"])).into()),
         ValueType::Array(e) => {
